@@ -11,7 +11,7 @@
 (*         inequality (soundness rule S2, bin/ratcheck.py)                  *)
 (*   cov : which clauses were evaluated non-vacuously on this line          *)
 (***************************************************************************)
-EXTENDS Integers, Sequences, FiniteSets, TLC, Json, IOUtils, Rat, SluStore, SluFactor, SluSolve, SluEquil
+EXTENDS Integers, Sequences, FiniteSets, TLC, Json, IOUtils, Rat, SluStore, SluFactor, SluSolve, SluEquil, SluCond
 
 Tr == ndJsonDeserialize(IOEnv.TRACE)
 \* MODE = "light": storage / allocator clauses only (the numeric replay of the factorization is skipped;
@@ -131,8 +131,9 @@ SolveVerdict(ev, opA, aok, n, Xcols, cplx, clause) ==
       mism == {k \in exactcols : ~ResidualZero(opA, n, xv(k), bv(k))}
   IN [arb |-> (IF mism # {} \/ exactcols # 1..nrhs THEN {clause} ELSE {}),
       cov |-> (IF exactcols # {} /\ mism = {} THEN {clause \o "_exact"} ELSE {}),
-      nexact |-> Cardinality(exactcols \ mism)]
+      nexact |-> Cardinality(exactcols \ mism), allexact |-> (exactcols = 1..nrhs /\ mism = {})]
 
+FiniteNonNeg(t) == IF Len(t) = 2 THEN t[1] >= 0 ELSE (t[1] = 1 /\ t[5] < 80000)
 UTok(ev) == ev.opts.u
 UOK(ev) == TokOK(UTok(ev)) /\ RIsPow2(Dy(UTok(ev))) /\ UTok(ev)[2] >= 0 /\ UTok(ev)[2] <= 10
 
@@ -162,7 +163,7 @@ GssvVerdict(ev) ==
       A == DenseOf(ev.A0, n, n, cplx, FALSE)
       sv == IF ev.info = 0 /\ Has(ev, "B0") /\ ev.nrhs > 0
             THEN SolveVerdict(ev, A, aok /\ asmall, n, ev.B1, cplx, "C01.residual")
-            ELSE [arb |-> {}, cov |-> {}, nexact |-> 0]
+            ELSE [arb |-> {}, cov |-> {}, nexact |-> 0, allexact |-> FALSE]
       bad == fv.bad
         \cup (IF ev.info # 0 /\ Has(ev, "B_same") /\ ev.B_same # 1 THEN {"C04.B_modified"} ELSE {})
         \cup (IF Has(ev, "padB_same") /\ ev.padB_same # 1 THEN {"C01.padding_written"} ELSE {})
@@ -223,6 +224,26 @@ MemVerdict(pm, ev, ty, liw) ==
       cov == (IF stable THEN {"C08.alloc_state_checked"} ELSE {}) \cup (IF e = "Expand" /\ pm # <<>> /\ pm.e = "ExpandBegin" /\ pm.numexp > 0 THEN {"C08.expansion_seen"} ELSE {})
   IN [bad |-> bad, arb |-> {}, cov |-> cov]
 MemFailure(ev) == (ev.e = "Xpand" /\ ev.ok = 0) \/ (ev.e = "InitReturn" /\ ev.ret # 0 /\ ev.lwork # -1)
+(***************************************************************************)
+(* Refinement loop events (hooks in [sdcz]gsrfs.c): per right-hand side     *)
+(* count starts at 0, a step is taken iff berr > eps, berr halved since the *)
+(* last step and fewer than five steps were taken; never more than five.    *)
+(* rf = [j, count, lastdec] : state of the loop automaton.                  *)
+(***************************************************************************)
+IsRefineEvent(ev) == ev.e \in {"RefineIter", "RefineStep", "RefineStop"}
+RefineVerdict(rf, ev) ==
+  LET bad ==
+        (IF ev.e = "RefineIter" /\ ev.count > 5 THEN {"C13.more_than_five_steps"} ELSE {})
+        \cup (IF ev.e = "RefineIter" /\ ev.j = rf.j /\ ev.count # rf.count THEN {"C13.loop_count"} ELSE {})
+        \cup (IF ev.e = "RefineIter" /\ ev.j # rf.j /\ ev.count # 0 THEN {"C13.loop_count_not_reset"} ELSE {})
+        \cup (IF ev.e = "RefineIter" /\ ev.count = 0 /\ ev.lstres # <<3, 0>> THEN {"C13.lstres_not_reset"} ELSE {})
+        \cup (IF ev.e = "RefineStep" /\ ~(rf.want /\ ev.count = rf.count + 1) THEN {"C13.step_against_rule"} ELSE {})
+        \cup (IF ev.e = "RefineStop" /\ rf.want THEN {"C13.stop_against_rule"} ELSE {})
+  IN [bad |-> bad, arb |-> {}, cov |-> (IF ev.e = "RefineStep" THEN {"C13.refinement_step_taken"} ELSE IF ev.e = "RefineStop" THEN {"C13.refinement_loop_checked"} ELSE {})]
+RefineNext(rf, ev) ==
+  IF ev.e = "RefineIter" THEN [j |-> ev.j, count |-> ev.count, want |-> (ev.gt_eps = 1 /\ ev.halved = 1 /\ ev.count < 5)]
+  ELSE IF ev.e = "RefineStep" THEN [rf EXCEPT !.count = ev.count, !.want = FALSE]
+  ELSE [j |-> -1, count |-> 0, want |-> FALSE]
 IsMemEvent(ev) == ev.e \in {"MemSetup", "UMalloc", "UFree", "ExpandBegin", "Expand", "Xpand", "InitExpands", "InitRetry", "WorkInit", "InitReturn", "WorkFree", "Col", "FactEnd"}
 
 (***************************************************************************)
@@ -302,7 +323,12 @@ GssvxVerdict(ev, sc) ==
       asmall == IF fact = 3 /\ needRC THEN unscOK /\ (\A t \in 1..Len(ev.A0) : ATokSmall(unscTok(t), cplx))
                 ELSE \A t \in 1..Len(ev.A0) : ATokSmall(ev.A0[t][3], cplx)
       sv == IF solved /\ ev.fn = "gssvx" /\ ~Light THEN SolveVerdict(ev, opA, aok /\ asmall, n, ev.X1, cplx, "C05.residual")
-            ELSE [arb |-> {}, cov |-> {}, nexact |-> 0]
+            ELSE [arb |-> {}, cov |-> {}, nexact |-> 0, allexact |-> FALSE]
+      condOn == ev.opts.Cond = 1 /\ ~query /\ Has(ev, "rcond_exp")
+      epsExp == IF ty \in {"d", "z"} THEN -53 ELSE -24          \* dmach("E") = 2^-53, smach("E") = 2^-24
+      rcNaN == Len(ev.rcond) = 5 /\ ev.rcond[5] = 99999
+      refOn == solved /\ ev.fn = "gssvx" /\ ev.opts.IterRefine # 0
+      refOff == solved /\ ev.fn = "gssvx" /\ ev.opts.IterRefine = 0
       \* --- storage clauses (C07 / C08)
       haswork == Has(ev, "work")
       digs == IF Has(ev, "L") /\ Has(ev.L, "dig") /\ Has(ev, "U") /\ Has(ev.U, "dig") THEN <<ev.L.dig, ev.L.digs, ev.U.dig, ev.U.digs, ev.perm_r, ev.perm_c, ev.L.nnz, ev.U.nnz>> ELSE <<>>
@@ -335,7 +361,27 @@ GssvxVerdict(ev, sc) ==
         \cup (IF factored /\ info = 0 /\ Has(ev, "L") /\ Has(ev.L, "rowind") /\ ev.itsz = 4 /\ ~MemUsageOK(ev) THEN {"C07.mem_usage"} ELSE {})
         \cup (IF info < 0 THEN {"C18.unexpected_negative_info"} ELSE {})
         \cup LedgerCls(ev, OutcomeCls(ev))
+        \* ---- C12: warning info = n+1 exactly when the reported rcond is below machine epsilon; rcond never exceeds one
+        \cup (IF condOn /\ (info = 0 \/ info = n + 1) /\ rcNaN THEN {"C12.rcond_not_a_number"} ELSE {})
+        \cup (IF condOn /\ (info = 0 \/ info = n + 1) /\ ~rcNaN /\ ((info = n + 1) # (ev.rcond_exp < epsExp)) THEN {"C12.warning_rule"} ELSE {})
+        \cup (IF ~condOn /\ info = n + 1 THEN {"C12.warning_without_estimate"} ELSE {})
+        \* (coarse form: the estimate is below 2; "at most one up to rounding" is evaluated by the side evaluator)
+        \cup (IF condOn /\ (info = 0 \/ info = n + 1) /\ ev.rcond_exp >= 1 THEN {"C12.rcond_exceeds_one"} ELSE {})
+        \* ---- C13: without refinement ferr = berr = 1 exactly; with refinement at most five steps, ferr finite and
+        \*      non-negative, and berr exactly zero when the returned X is the exact solution (exact domain, double)
+        \cup (IF refOff /\ (\E k \in 1..ev.nrhs : ev.ferr[k] # <<1, 0>> \/ ev.berr[k] # <<1, 0>>) THEN {"C13.not_one_without_refinement"} ELSE {})
+        \cup (IF refOn /\ ev.steps > 5 THEN {"C13.more_than_five_steps"} ELSE {})
+        \* (finiteness is demanded when the driver did not warn that the matrix is singular to working precision)
+        \cup (IF refOn /\ condOn /\ info = 0 /\ ~rcNaN /\ (\E k \in 1..ev.nrhs : ~FiniteNonNeg(ev.ferr[k]) \/ ~FiniteNonNeg(ev.berr[k])) THEN {"C13.error_bounds_not_finite"} ELSE {})
+        \cup (IF refOn /\ (\E k \in 1..ev.nrhs : (Len(ev.ferr[k]) = 5 /\ ev.ferr[k][5] = 99999) \/ (Len(ev.berr[k]) = 5 /\ ev.berr[k][5] = 99999) \/ ev.ferr[k][1] < 0 \/ ev.berr[k][1] < 0)
+              THEN {"C13.error_bounds_nan_or_negative"} ELSE {})
+        \cup (IF refOn /\ ty \in {"d", "z"} /\ fact # 3 /\ fv.d2 /\ sv.allexact /\ (\E k \in 1..ev.nrhs : ev.berr[k] # <<0, 0>>)
+              THEN {"C13.berr_nonzero_for_exact_solution"} ELSE {})
+      numarb == IF (condOn \/ (ev.opts.PivotGrowth = 1 /\ ~query) \/ refOn \/ (info > 0 /\ info <= n)) /\ ~Light THEN {"C12.numeric", "C13.numeric"} ELSE {}
       cov == fv.cov \cup sv.cov
+        \cup (IF condOn /\ (info = 0 \/ info = n + 1) THEN {"C12.rcond_reported", IF info = n + 1 THEN "C12.warning_raised" ELSE "C12.no_warning"} ELSE {})
+        \cup (IF refOn /\ ty \in {"d", "z"} /\ fact # 3 /\ fv.d2 /\ sv.allexact THEN {"C13.berr_zero_exact"} ELSE {})
+        \cup (IF refOff THEN {"C13.no_refinement"} ELSE {})
         \cup (IF EquedOK(q) /\ needRC /\ ascaledChecked THEN {"C05.A_scaling_exact"} ELSE {})
         \cup (IF solved /\ bneeds /\ bok /\ rcok THEN {"C05.B_scaling_exact"} ELSE {})
         \cup (IF sc.ref # <<>> /\ (sc.refd2 \/ BitwiseAll) /\ factored /\ info = 0 /\ digs # <<>> THEN {"C07.compared_bitwise"} ELSE {})
@@ -346,7 +392,7 @@ GssvxVerdict(ev, sc) ==
         \cup (IF sc.memfail THEN {"C08.shortage_seen"} ELSE {})
         \cup (IF q # "N" THEN {"C05.equed_" \o q} ELSE {})
         \cup {"C06.fact_" \o (CASE fact = 0 -> "DOFACT" [] fact = 1 -> "SamePattern" [] fact = 2 -> "SameRowPerm" [] OTHER -> "FACTORED")}
-  IN [bad |-> bad, arb |-> fv.arb \cup sv.arb, cov |-> cov, digs |-> IF factored /\ info = 0 THEN digs ELSE <<>>, d2 |-> fv.d2]
+  IN [bad |-> bad, arb |-> fv.arb \cup sv.arb \cup numarb, cov |-> cov, digs |-> IF factored /\ info = 0 THEN digs ELSE <<>>, d2 |-> fv.d2]
 
 (***************************************************************************)
 (* ?gsequ + ?laqgs on the log domain DL (C11): every logged quantity is     *)
@@ -399,6 +445,37 @@ EquVerdict(ev) ==
       cov |-> (IF dl THEN {"C11.exact_DL", "C11.equed_" \o (IF g.info = 0 THEN q ELSE "info")} ELSE {})]
 
 (***************************************************************************)
+(* ?lacon2 driven with an explicit operator (C12): the recorded rounds of   *)
+(* the reverse-communication loop are replayed through SluCond, call by     *)
+(* call (control state always; estimates where the arithmetic is exact).    *)
+(***************************************************************************)
+RECURSIVE LaconAfter(_, _, _)
+LaconAfter(B, n, k) == IF k = 1 THEN LaconInit(n) ELSE LaconStep(Apply(LaconAfter(B, n, k - 1), B, n), n)
+LaconVerdict(ev) ==
+  LET n == ev.n
+      ok == ~IsCplx(ev.ty) /\ n \in {1, 2, 4, 8} /\ \A t \in 1..Len(ev.A0) : TokOK(ev.A0[t][3]) /\ Abs(Dy(ev.A0[t][3])[1]) <= 8 /\ Dy(ev.A0[t][3])[2] <= 4
+      B == [ij \in Ix(n) \X Ix(n) |->
+              LET S == {t \in 1..Len(ev.A0) : ev.A0[t][1] = ij[1] - 1 /\ ev.A0[t][2] = ij[2] - 1} IN
+              IF S = {} THEN RZero ELSE Dy(ev.A0[CHOOSE t \in S : TRUE][3])]
+      K == Len(ev.rounds)
+      st(k) == LaconAfter(B, n, k)
+      last == st(K)
+      roundBad(k) == LET s == st(k)  r == ev.rounds[k] IN
+                       \/ r.kase # s.kase \/ r.jump # s.jump
+                       \/ (s.jump \in {3, 4, 5} /\ s.kase # 0 /\ r.j # s.j - 1)
+                       \/ (s.jump \in {3, 4} /\ r.iter # s.iter)
+                       \/ (s.jump \in {2, 3, 4} /\ (~TokOK(r.est) \/ Dy(r.est) # s.est))
+                       \/ (s.jump = 5 /\ s.kase = 1 /\ (~TokOK(r.est) \/ Dy(r.est) # s.est))
+      bad == IF ~ok THEN {} ELSE
+             (IF K > 12 \/ last.kase # 0 THEN {"C12.estimator_rounds"}
+              ELSE (IF \E k \in 1..K : roundBad(k) THEN {"C12.estimator_step"} ELSE {})
+                   \* the final estimate is exact when the last stage did not replace it (its candidate involves a
+                   \* division by 3n, inexact in floating point)
+                   \cup (IF K >= 2 /\ st(K - 1).jump = 5 /\ last.est = st(K - 1).est /\ (~TokOK(ev.est) \/ Dy(ev.est) # last.est) THEN {"C12.estimate_value"} ELSE {})
+                   \cup (IF n = 1 /\ (~TokOK(ev.est) \/ Dy(ev.est) # last.est) THEN {"C12.estimate_value"} ELSE {}))
+  IN [bad |-> bad, arb |-> (IF ok THEN {} ELSE {"C12.estimator_float"}), cov |-> (IF ok THEN {"C12.estimator_replayed"} ELSE {})]
+
+(***************************************************************************)
 (* Rejected calls (C18): the routine reports the position SluScreen!Screen  *)
 (* computes from the violated preconditions, every caller object is byte-   *)
 (* identical and no allocation is retained.                                 *)
@@ -422,6 +499,7 @@ Verdict(ev, pm, sc) ==
         [] ev.fn \in {"gssvx", "gsisx"} -> GssvxVerdict(ev, sc)
         [] ev.fn = "screen" -> ScreenVerdict(ev)
         [] ev.fn = "equ" -> EquVerdict(ev)
+        [] ev.fn = "lacon" -> LaconVerdict(ev)
         [] OTHER -> [bad |-> (IF Has(ev, "ledger") THEN LedgerCls(ev, "_" \o ev.fn) ELSE {}), arb |-> {}, cov |-> {"ledger_only_" \o ev.fn}])
   ELSE IF ev.e = "Done" THEN
      [bad |-> (IF ev.status # "ok" THEN {"C19.abnormal_end_" \o ev.status} ELSE {}), arb |-> {}, cov |-> {}]
@@ -431,24 +509,26 @@ Verdict(ev, pm, sc) ==
      [bad |-> (IF ev.ledger.live # 0 /\ ~sc.leaked THEN {"C19.leak_at_end"} ELSE {}) \cup (IF ev.ledger.bad_frees # 0 THEN {"C19.bad_free"} ELSE {})
               \cup (IF ev.ledger.redzone # 0 \/ ev.ledger.sweep # 0 THEN {"C19.redzone"} ELSE {}), arb |-> {}, cov |-> {"C19.ledger_end"}]
   ELSE IF IsMemEvent(ev) THEN MemVerdict(pm, ev, sc.ty, sc.liw)
+  ELSE IF IsRefineEvent(ev) THEN RefineVerdict(sc.rf, ev)
   ELSE [bad |-> {}, arb |-> {}, cov |-> {}]
 
 VARIABLES l, pm, sc
 vars == <<l, pm, sc>>
-NoCtx == [ref |-> <<>>, refd2 |-> FALSE, leaked |-> FALSE, memfail |-> FALSE, ty |-> "d", liw |-> 4, id |-> "", nexp |-> 0, memev |-> FALSE]
+NoCtx == [rf |-> [j |-> -1, count |-> 0, want |-> FALSE], ref |-> <<>>, refd2 |-> FALSE, leaked |-> FALSE, memfail |-> FALSE, ty |-> "d", liw |-> 4, id |-> "", nexp |-> 0, memev |-> FALSE]
 TInit == l = 1 /\ pm = <<>> /\ sc = NoCtx
 TNext == /\ l <= Len(Tr)
          /\ LET ev == Tr[l]  v == Verdict(ev, pm, sc) IN
             /\ PrintT(ToJson([line |-> l, id |-> (IF Has(ev, "id") THEN ev.id ELSE sc.id), e |-> ev.e,
                               fn |-> (IF Has(ev, "fn") THEN ev.fn ELSE ev.e),
                               bad |-> v.bad, arb |-> v.arb, cov |-> v.cov]))
-            /\ pm' = IF IsMemEvent(ev) THEN ev ELSE IF ev.e \in {"RedZone", "AllocFail", "BadFree"} THEN pm ELSE <<>>
+            /\ pm' = IF IsMemEvent(ev) THEN ev ELSE IF ev.e \in {"RedZone", "AllocFail", "BadFree", "RefineIter", "RefineStep", "RefineStop"} THEN pm ELSE <<>>
             /\ sc' = IF ev.e = "Reset" THEN [NoCtx EXCEPT !.ty = ev.ty, !.id = ev.id]
                      ELSE IF IsMemEvent(ev) THEN
                           [sc EXCEPT !.memfail = sc.memfail \/ MemFailure(ev), !.memev = TRUE,
                                      !.nexp = IF ev.e = "Expand" /\ ev.ok = 1 /\ pm # <<>> /\ pm.e = "ExpandBegin" /\ pm.numexp > 0 THEN sc.nexp + 1 ELSE sc.nexp]
+                     ELSE IF IsRefineEvent(ev) THEN [sc EXCEPT !.rf = RefineNext(sc.rf, ev)]
                      ELSE IF ev.e = "Ret" THEN
-                          [sc EXCEPT !.leaked = sc.leaked \/ (Has(ev, "ledger") /\ ev.ledger.live_internal # 0), !.memfail = FALSE, !.liw = (IF Has(ev, "itsz") THEN ev.itsz ELSE sc.liw), !.nexp = 0, !.memev = FALSE,
+                          [sc EXCEPT !.rf = NoCtx.rf, !.leaked = sc.leaked \/ (Has(ev, "ledger") /\ ev.ledger.live_internal # 0), !.memfail = FALSE, !.liw = (IF Has(ev, "itsz") THEN ev.itsz ELSE sc.liw), !.nexp = 0, !.memev = FALSE,
                                      !.ref = IF sc.ref = <<>> /\ Has(v, "digs") THEN v.digs ELSE sc.ref,
                                      !.refd2 = IF sc.ref = <<>> /\ Has(v, "digs") THEN v.d2 ELSE sc.refd2]
                      ELSE sc
